@@ -41,7 +41,7 @@ pub fn structural_alphabet() -> Alphabet {
         set_value: false,
         max_creations: 1,
         names: &["n", "r"],
-        values: &["v"],
+        values: &["v", "]]>"],
             chardata: &[],
             chardata_extra: 0,
             chardata_full: true,
